@@ -225,18 +225,13 @@ theorem compile_validates_partial (p : Bytes) (haddr : Nat → Option Nat) (um u
         simp only at this
         rw [this, hcsz]; simp
 
-/-- UNPROVABLE AS STATED (proved above as `compile_validates_partial` with the extra hypothesis `p.size / 8 ≤ 1000000`).
-    Counterexample, checked by evaluation (`compileWithLayout` succeeds, code size 74, `validate = false`):
-    slot 0 = `call` local (opc 0x85, src 1, imm 1000000: target slot 1000001), slots 1..1000000 = `le64 r0`
-    (opc 0xd4, imm 64: emits no byte), slot 1000001 = `exit`; `haddr = fun _ => none`.  `TargetsOk` holds (slot 1000001 is
-    an instruction start), but the emitter records the call with target number 1000001 = `targetPcExit`, so
-    `resolveJumps` sends it to the epilogue (offset 58) while the checker expects `pcLocs[1000001]` = 57.
-    The verifier rejects programs of more than 1000000 slots, so this is out of reach of verified programs. -/
-theorem compile_validates (p : Bytes) (haddr : Nat → Option Nat) (um ud : Bool) (code : Array UInt8) (locs : Array Nat) (ex : Nat)
-    (h : JitEmit.compileWithLayout p haddr um ud = .ok (code, locs, ex))
-    (hh : ∀ k a, haddr k = some a → a < 2 ^ 64)
-    (ht : TargetsOk p haddr) (hsz : code.size < 2 ^ 31) :
-    validate p haddr um ud code { pcLocs := locs, exitLoc := ex } = true := by
-  sorry   -- false without `p.size / 8 ≤ 1000000`: see `compile_validates_partial`
+/- The statement without `p.size / 8 ≤ 1000000` is FALSE of the emitter (hence of the JIT it models byte for byte).
+   Counterexample, checked by evaluation (`compileWithLayout` succeeds, code size 74, `validate = false`):
+   slot 0 = `call` local (opc 0x85, src 1, imm 1000000: target slot 1000001), slots 1..1000000 = `le64 r0`
+   (opc 0xd4, imm 64: emits no byte), slot 1000001 = `exit`; `haddr = fun _ => none`.  `TargetsOk` holds (slot 1000001 is
+   an instruction start), but the emitter records the call with target number 1000001 = `targetPcExit`
+   (`TARGET_PC_EXIT` in jit.rs), so `resolveJumps` sends it to the epilogue (offset 58) while the checker expects
+   `pcLocs[1000001]` = 57.  The default verifier rejects programs of more than 1000000 slots, so accepted programs
+   cannot reach this; a custom verifier could. -/
 
 end Rbpf.JitEnc
